@@ -180,7 +180,7 @@ def _arena_pipeline(tier, focus, variants, key):
         raise ToolError("TLC saw %d records, replayer wrote %d" % (checked, stats["lines"]))
     bad = {p: tagged_index_sets(results, parts, "BAD_" + p) for p in ARENA_PROPS}
     drift = tagged_index_sets(results, parts, "DRIFT")
-    counters = {k: tagged_int(results, k) for k in ("N_EXIT", "N_REALLOC", "N_NEWCHUNK", "N_RECLAIM", "N_FAIL", "N_CLAIMED_OP", "N_ALIGNED", "N_REUSE", "N_PREP", "N_COMMIT", "N_PARTS", "N_AGAIN")}
+    counters = {k: tagged_int(results, k) for k in ("N_EXIT", "N_REALLOC", "N_NEWCHUNK", "N_RECLAIM", "N_FAIL", "N_CLAIMED_OP", "N_ALIGNED", "N_REUSE", "N_PREP", "N_COMMIT", "N_PARTS", "N_AGAIN", "N_TRYWITH_ERR", "N_VALUE")}
     shutil.rmtree(d, ignore_errors=True)
     mc.out = mc.out[-4000:]
     return {"wd": wd, "beh": beh, "obs": obs, "mc": mc, "nsim": nsim, "stats": stats, "crashes": crashes, "bad": bad,
@@ -211,12 +211,14 @@ def check_arena_property(pid, tier, focus="general"):
                             "how": "harness/replay replays `behaviour` (a TLC-generated behaviour of spec/Arena.tla) on the real "
                                    "allocator; `step` is the recorded observation on which the contract clause of ArenaObs.tla fails"})
     # a crash of the process while replaying is an observation: memory safety (C01/C02) is gone
-    if pid in ("C01", "C02"):
+    if pid in ("C01", "C02", "C05"):
         for (bid, rc, last) in P["crashes"]:
             b = behaviour_by_id(P["beh"], [bid]).get(bid)
             lastrec = json.loads(last) if last else None
             k = lastrec["i"] if lastrec and lastrec.get("b") == bid else 0
             nxt = b["steps"][k] if b and k < len(b["steps"]) else None
+            if pid == "C05" and nxt is not None and nxt["a"] not in ("drop", "reset"):
+                continue    # C05 takes crashes while releasing chunks (drop / reset / end of the behaviour)
             sig = {"clause": "crash", "a": nxt["a"] if nxt else None}
             if nxt and nxt["a"] in ("grow", "shrink", "dealloc"):
                 sig["wrap"] = nxt["args"].get("wrap")
